@@ -356,6 +356,7 @@ fn run_fit<T: Sc>(idx: usize, sc: &Scenario) -> ScenOut {
         post_jac: idx % 2 == 1,
         refit: idx % 4 == 3,
         eps: None,
+        weights_first: idx % 2 == 0,
     };
     let _ = eps;
     let mut steps = Vec::new();
